@@ -92,7 +92,10 @@ def llvm_audit(ctx, progs, limit):
         for path, text in p.files.items():
             with open(os.path.join(d, os.path.basename(path)), "w") as f:
                 f.write(text)
-        rc, out = vlib.sh([exe, "-I", d, os.path.join(d, os.path.basename(p.root)), "-o", os.devnull], timeout=60)
+        rc, out = vlib.sh([exe, "-I", d, os.path.join(d, os.path.basename(p.root)), "-o", os.devnull], timeout=10)
+        if "[timeout]" in out:
+            res["timeout"] = res.get("timeout", 0) + 1     # (expansion does not terminate: nothing to compare)
+            continue
         if p.notfound:
             if rc != 0:
                 res["rejected_probe"] += 1
